@@ -4,7 +4,8 @@
 (* C16: one SerialSignBus::process_message call per segment                *)
 (*   pm    {m, rx, wire}    the message; bytes waiting on the receive side;*)
 (*                          the message's own frame encoding with CR LF    *)
-(*   pw    {data, ret}      a write call on the port (-2: injected fault)  *)
+(*   pw    {data, ret}      a write call on the port (-2: injected fault,  *)
+(*                          -4: interrupted, i.e. to be repeated)           *)
 (*   pr    {req, ret}       a read call (-2 fault, -3 time-out)            *)
 (*   pmret {res, txd, rxleft, line, direct}  direct = decoding of the line *)
 (* C20: one port set-up per segment                                        *)
@@ -30,6 +31,7 @@ PMEv == /\ IsEvent("pm")
 
 PW == /\ IsEvent("pw")
       /\ IF E.ret >= 0 THEN txd' = txd \o SubSeq(E.data, 1, E.ret) /\ UNCHANGED fault
+         ELSE IF E.ret = -4 THEN UNCHANGED <<txd, fault>>          \* interrupted: to be repeated, not a failure
          ELSE fault' = TRUE /\ UNCHANGED txd
       /\ IsPrefix(txd', wire)                          \* nothing but the message's frame is ever written
       /\ nreads = 0                                    \* and it is written before anything is read
@@ -40,7 +42,7 @@ PR == /\ IsEvent("pr")
       /\ txd = wire                                    \* and only after the whole frame went out
       /\ nreads' = nreads + 1
       /\ IF E.ret > 0 THEN consumed' = consumed + E.ret /\ consumed' <= Len(LineFrom(rx, 0)) /\ UNCHANGED fault
-         ELSE consumed' = consumed /\ fault' = (fault \/ E.ret = -2)
+         ELSE consumed' = consumed /\ fault' = (fault \/ E.ret = -2)   \* -3: time-out (nothing there), -4: interrupted (repeat)
       /\ UNCHANGED <<m, rx, wire, txd, ffault, su, failed>>
 
 \* a flush of the port: not a write, not a read (the library as it stands never flushes; a version that does may or
